@@ -205,7 +205,7 @@ def check(ctx, run):
         o = Obj(cq, "m", {"clamped_slope": SL, "inverted_output": Sym("m.inverted_output", ("str",))})
         fw = prog.lookup_method(cq, "forward")
         res = [r for r in interp.explore(fw, [X, LO, HI], {}, self_obj=o, max_paths=50)]
-        calls = [e for r in res for e in r["events"] if e["kind"] == "call" and e["callee"] == E.F + fn and e["fn"] == fw.qualname]
+        calls = [e for r in res for e in r["events"] if e["kind"] == "call" and e["callee"] == E.F + fn and not e["fn"].startswith(E.F)]   # from the module (forward or a helper), not from inside the functional layer
         params = [a.arg for a in prog.functions[E.F + fn].node.args.args]
         okm = bool(calls)
         for e in calls:
